@@ -16,10 +16,19 @@ environment):
   * OUTPUTS      if both return: ``write_config`` text, ``write_autoconf`` text and ``kconfgen.core.
                  get_json_values`` are equal in the initial configuration and after every step of a history of
                  user operations applied to both instances (``rtc.gen`` op language).
-  * INVALID      for deliberately invalid sources (each breaks one documented rule) the ACCEPTANCE contract must
-                 hold with "both raise a KconfigError"; if both parsers accept such a source the TREE/OUTPUTS
-                 contracts are still evaluated (the two parsers must not disagree), and the case is listed under
-                 ``notes`` (the property statement only quantifies over the documented language).
+  * INVALID      deliberately invalid sources (each breaks one documented rule, or uses a literal form the docs do not
+                 have) are OUTSIDE the quantifier of C04 ("every Kconfig source in the documented language"): the
+                 same contracts are evaluated on them, but whatever happens is only listed under ``notes`` and never
+                 reported as a violation.  The same holds for the inputs of test/kconfiglib/kconfigs/errors.
+
+Scope (``build_cases``): gen.small_trees(3) (a superset of the small_trees(2) part of gen.corpus), the random trees of
+gen.corpus(seed, count) drawn inside the workers (plus the draws the generator discarded because one parser rejected
+them), every root Kconfig file under <repo>/test with the environment the test-suite sets, and the hand-written
+fragments ``_FRAGS`` for constructs the generator lacks.  A violation class is ``<group>|<symptom>``: group = ``gen``,
+``gen-discarded``, ``fixture:<path>`` or ``frag:<fragment id>``; symptom = ``accept:<v1>/<v2>``,
+``exception:Kconfig.__init__[parser_version=N]:<Type>``, ``hang:Kconfig.__init__[parser_version=N]``,
+``tree:<differing fields>``, ``tree~whitespace-runs`` (the trees differ only in runs of blanks/tabs inside strings; the
+outputs are then compared modulo such runs) or ``out:<differing outputs>``.
 
 The oracle is the other parser: nothing of the library is re-implemented here.
 
@@ -54,7 +63,7 @@ from rtc import gen  # noqa: E402
 NAME = "drv_parsers"
 PROPERTIES = ["C04"]
 
-LOAD_TIMEOUT = 10  # CPU seconds per Kconfig() construction; normal constructions take 2..60 ms
+LOAD_TIMEOUT = 5  # CPU seconds per Kconfig() construction; normal constructions take 2..60 ms
 ENV_NAMES = tuple(gen.ENV_VARS)
 
 # ======================================================================================================
@@ -282,8 +291,17 @@ def check_case(files, env, expect, ops_fn, root="Kconfig", relroot=False, fixtur
         res["errors"] = [None if s1 == "ok" else str(k1).replace(td, "@ROOT@")[:400], None if s2 == "ok" else str(k2).replace(td, "@ROOT@")[:400]]
         bad = [s for s in (s1, s2) if s not in ("ok", "reject")]
         if bad or s1 != s2:
-            res["symptoms"].append("accept:%s/%s" % (s1, s2))
-            res["detail"].append("parser 1: %s%s\nparser 2: %s%s" % (s1, "" if s1 == "ok" else " -- " + res["errors"][0], s2, "" if s2 == "ok" else " -- " + res["errors"][1]))
+            text = "parser 1: %s%s\nparser 2: %s%s" % (s1, "" if s1 == "ok" else " -- " + res["errors"][0], s2, "" if s2 == "ok" else " -- " + res["errors"][1])
+            for version, s in ((1, s1), (2, s2)):
+                if s.startswith("crash("):  # a Python exception inside the library that is not a Kconfig error
+                    res["symptoms"].append("exception:Kconfig.__init__[parser_version=%d]:%s" % (version, s[6:-1]))
+                    res["detail"].append(text)
+                elif s == "hang":
+                    res["symptoms"].append("hang:Kconfig.__init__[parser_version=%d]" % version)
+                    res["detail"].append(text)
+            if not bad:
+                res["symptoms"].append("accept:%s/%s" % (s1, s2))
+                res["detail"].append(text)
         if expect == "invalid" and (s1 != "ok" or s2 != "ok"):
             res["nontrivial"] = True
         if s1 != "ok" or s2 != "ok":
@@ -334,14 +352,18 @@ def check_case(files, env, expect, ops_fn, root="Kconfig", relroot=False, fixtur
 # SCOPE: generator corpus, repository fixtures, hand-written fragments, deliberately invalid sources
 # ======================================================================================================
 
-FIXTURE_ENV = {
-    # what test/kconfiglib/test_kconfiglib.py and test/gen_kconfig_doc set before loading the fixtures
-    "TEST_FILE_PREFIX": "@REPO@/test/kconfiglib/kconfigs/ok/kconfigs_for_sourcing",
-    "TEST_ENV_SET": "y",
-    "MAX_NUMBER_OF_MOTORS": "4",
-    "IDF_TARGET": "chipa",
-    "DOLLAR_TEST_VAR": "dollar",
-}
+def fixture_env(rel):
+    """the environment the test-suite sets before it loads the fixture <repo>/<rel> (nothing else is set)"""
+    rel = rel.replace(os.sep, "/")
+    if rel.startswith("test/kconfiglib/kconfigs/ok/"):  # test_kconfiglib.py, TestOKCases.set_env_vars
+        return {"TEST_FILE_PREFIX": "@REPO@/test/kconfiglib/kconfigs/ok/kconfigs_for_sourcing", "TEST_ENV_SET": "y",
+                "MAX_NUMBER_OF_MOTORS": "4"}
+    if rel == "test/kconfiglib/kconfigs/Kconfig.dollar_expansion":  # test_kconfiglib_loading.py, TestDollarExpansion
+        return {"DOLLAR_TEST_VAR": "hello"}
+    if rel.startswith("test/gen_kconfig_doc/"):  # test_kconfig_out.py / test_target_visibility.py
+        return {"IDF_TARGET": "chipa"}
+    return {}
+
 
 _P = 'mainmenu "T"\n\n'
 # common prelude of the hand-written fragments (names are never valid hexadecimal numbers)
@@ -482,8 +504,7 @@ _F("help-tabs", 'config HLP\n    bool "hlp"\n    help\n        a\ttab inside\n\t
 _F("line-continuation", 'config CONT\n    bool "cont"\n    default y if OPT_A && \\\n        OPT_B || \\\n        OPT_C\n    depends on NUM_N > 1 \\\n        && NUM_M > 1\n\nconfig AFTER\n    bool "after"\n')
 _F("line-continuation-in-prompt-line", 'config CONT\n    bool "cont" \\\n        if OPT_A\n    select \\\n        TGT\n\n' + _tgt())
 _F("hash-comments", '# full line\nconfig HC # trailing on entry\n    bool "hc" # trailing on type\n    default y if OPT_A # trailing on default\n    # between options\n    depends on OPT_C # trailing\n\n    # indented comment after options\nconfig AFTER\n    string "after # not a comment"\n    default "a # b" # real comment\n')
-_F("hash-comment-before-mainmenu", 'config ONLY\n    bool "only"\n', base=False)
-_FRAGS[-1]["text"] = '# leading comment\n\n# another\nmainmenu "T"\n\nconfig ONLY\n    bool "only"\n'
+_F("hash-comment-before-mainmenu", '# leading comment\n\n# another\nmainmenu "T"\n\nconfig ONLY\n    bool "only"\n', base=False)
 _F("mainmenu-only", 'mainmenu "just a title"\n', base=False)
 _F("mainmenu-indented-entries", 'mainmenu "T"\n\n    config IND_ONE\n        bool "one"\n        default y\n\n    menu "m"\n        config IND_TWO\n            int "two"\n            default 2\n    endmenu\n', base=False)
 # ---- strings ----------------------------------------------------------------------------------------------
@@ -684,7 +705,7 @@ def _materialise(case):
                         "files": {"Kconfig": text}, "env": {}, "expect": "valid", "ops_fn": _ops_fn(case["id"], _NoSpec, 3)})
         return out
     if kind == "fixture":
-        return [{"id": case["id"], "label": case["rel"], "group": "fixture:" + case["rel"], "files": {}, "env": dict(FIXTURE_ENV),
+        return [{"id": case["id"], "label": case["rel"], "group": "fixture:" + case["rel"], "files": {}, "env": fixture_env(case["rel"]),
                  "expect": case["expect"], "fixture_rel": case["rel"], "ops_fn": _ops_fn(case["id"], _NoSpec, 4)}]
     if kind == "frag":
         fr = case["frag"]
@@ -833,7 +854,7 @@ def _run(base, prop, tier, seed, jobs, t0):
     for cls in sorted(by_class):
         ent = by_class[cls]
         r, symptom = ent["first"], ent["symptom"]
-        contract = ("Kconfig.__init__ ACCEPTANCE" if symptom.startswith("accept:") else
+        contract = ("Kconfig.__init__ ACCEPTANCE" if symptom.startswith(("accept:", "exception:", "hang:")) else
                     "Kconfig.__init__ TREE" if symptom.startswith("tree") else "Kconfig.__init__ OUTPUTS")
         violations.append({
             "case_class": cls, "contract": contract,
